@@ -319,6 +319,28 @@ def field_readers(F, adt, field):
 
 
 # ------------------------------------------------------------------------------------------- R4
+def pseudo_publishes(ctx, F, rule):
+    n = 0
+    for k, b in sorted(F.fns.items()):
+        if b.self_adt != "api::pseudo_fs::PseudoFs" or b.kind != "assoc" or "persist" in k:
+            continue
+        v = vf.VF(b, inline_depth=0)
+        mods = [c for c in live_calls(b) if c.name in ("insert", "remove") and "HashMap" in (c.fn or "") and "self.inodes" in R(v.call_args(c)[0], b, v)]
+        if not mods:
+            continue
+        n += 1
+        st = [c for c in live_calls(b) if c.name == "store" and "arc_swap" in (c.fn or "") and R(v.call_args(c)[0], b, v) == "self.inodes"]
+        lost = False
+        for c in mods:
+            if c.target is None:
+                continue
+            region = b.reach_set(c.target, avoid=set(x.bb for x in st))
+            if any(r_ in region for r_ in b.return_blocks()):
+                lost = True
+        ctx.check(rule, "publishes/PseudoFs::%s" % b.name, bool(st) and not lost, "PseudoFs::%s modifies its copy of the inode table and can return without storing it back" % b.name, loc=b.loc())
+    ctx.check(rule, "publishes/sites", n >= 2, "only %d PseudoFs functions modifying the inode table found" % n)
+
+
 def r4_pseudo(ctx, F):
     rule = "R4-pseudo-roundtrip"
     sb = F.fns.get(PSP + "<api::pseudo_fs::PseudoFs>::save_to_bytes")
@@ -416,6 +438,9 @@ def r4_pseudo(ctx, F):
     root_ins = [c for c in ins if "self.root_inode" in R(rv.call_args(c)[2], rb, rv)]
     ctx.check(rule, "restore/root-reused", len(root_ins) == 1 and R(rv.call_args(root_ins[0])[1], rb, rv) == "self.root_inode.ino",
               "PseudoFs::restore_from_state must register the existing root inode under its own number", loc=rb.loc())
+    # the pseudo fs changes its inode table by clone - modify - store: a modification that is not stored back is lost for the live
+    # instance only in part (children lists are shared) and resurfaces in the next snapshot
+    pseudo_publishes(ctx, F, rule)
     # every rebuilt inode is registered under its own number, unconditionally inside the rebuilding loop
     reg = [c for c in ins if c not in root_ins]
     ok = len(reg) == 1 and len(nw) == 1 and rb.dominates(nw[0].bb, reg[0].bb)
@@ -537,6 +562,11 @@ def r6_restore_mount(ctx, F):
         ctx.check(rule, "backend-root-entry", a[2].startswith("FileSystem::mount(") or "mount(fs" in a[2] or ".0" in a[2], "restore_mount does not use the backend's own root entry", loc=im[0].loc())
     ctx.check(rule, "no-allocation", "allocate_fs_idx" not in names and not [c for c in live_calls(b) if c.name in ("store", "fetch_add", "compare_exchange") and "next_super" in R(v.call_args(c)[0], b, v)],
               "restore_mount touches the mount-index allocator; indices of later mounts would differ from the un-restored VFS", loc=b.loc())
+    # the slot's id mapping came back with restore_from_bytes: re-attaching the backend must not write the mapping table
+    from rules import c07
+    w_, _v = c07.index_writes(F, b)
+    mw_ = [x for x in w_ if x[0] == "mount_id_mappings"]
+    ctx.check(rule, "keeps-restored-mapping", not mw_, "restore_mount overwrites mount_id_mappings[%s], the mapping restored from the snapshot" % (mw_[0][1] if mw_ else ""), loc=(mw_[0][3].loc() if mw_ else b.loc()))
     g = [c for c in live_calls(b) if c.name == "mount" and c.trait]
     ctx.check(rule, "ino-limit", any("VFS_MAX_INO" in R(x, b, v) for c in live_calls(b) for (x, l, u) in v.guards(c.bb)), "restore_mount no longer rejects backends whose inode numbers do not fit", loc=b.loc())
 
